@@ -45,6 +45,9 @@ func main() {
 		if *tier != "quick" && *tier != "thorough" {
 			*tier = "quick"
 		}
+		if replayPath != "" {
+			os.Setenv("VERIF_REPLAY", replayPath)
+		}
 		def, ok := checks[id]
 		if !ok {
 			fmt.Fprintf(os.Stderr, "unknown property %s\n", id)
